@@ -208,7 +208,7 @@ func c07Parts(err error) []string {
 func init() {
 	core.Register(&core.Check{
 		ID: "C07",
-		Rule: "operation security in {absent, [], [{}], [{A}], [{A,B}], [{A},{B}], [{A},{}], [{B,A},{A}]} (document security from the same set when the operation declares none) x AuthenticationFunc nil/set with every answer per call chosen when the callback is called " +
+		Rule: "operation security in {absent, [], [{}], [{A}], [{A,B}], [{A},{B}], [{A},{}], [{B,A},{A}]} (document security from the same set when the operation declares none) x AuthenticationFunc nil/set with both answers explored for every scheme in effect (the answer is a function of the scheme) " +
 			"x path-level parameters subset of {q1 required integer query, h1 required integer header} x operation parameters subset of {q1 string override, q2 optional integer, h1 as a query parameter, q1 as a header parameter (same name, other location)}, the operation's list in both orders x request values (absent/valid/invalid per parameter) x body {undeclared, valid, invalid, missing} " +
 			"x MultiError x ExcludeRequestBody x ExcludeRequestQueryParams. Truth-table model gives pass/fail, the multiset of failing parts (multi-error mode) and the set of schemes the callback may be asked about. non-trivial = at least one part is declared",
 		Assumptions: []string{
